@@ -1463,7 +1463,10 @@ def _fix_undelimited_seq(
     eln, ecol, _, _ = body[0].f.pars()
 
     if ecol != col or eln != ln:  # to be super safe we enforce that an undelimited node must start at the first element
-        self._put_src(None, ln, col, eln, ecol, False)
+        if next_frag(lines, ln, col, eln, ecol, True):  # comment before first element (so we are enclosed), keep it and just move start
+            self._set_start_pos(eln + 1, lines[eln].c2b(ecol), (a := self.a).lineno, a.col_offset)
+        else:
+            self._put_src(None, ln, col, eln, ecol, False)
 
         ln, col, end_ln, end_col = self.loc
 
